@@ -453,6 +453,8 @@ type symEnv struct {
 	positiveVars map[*types.Var]bool
 	// state in which the expression currently being evaluated lives (for resolve hooks)
 	cur *symState
+	// initial values of variables (by state key)
+	init map[string]Val
 }
 
 type symState struct {
@@ -979,6 +981,10 @@ func (e *symEnv) exec(st *symState, s ast.Stmt) []*symState {
 // symRun interprets a function body.
 func symRun(env *symEnv, body *ast.BlockStmt) []symPath {
 	st := &symState{vars: map[string]Val{}}
+	for k, v := range env.init {
+		st.vars[k] = v
+	}
+	env.paths = nil
 	env.maxPaths = 4096
 	rest := env.execList([]*symState{st}, body.List)
 	for _, r := range rest {
